@@ -144,6 +144,16 @@ func forwardField(base ssa.Value, field int, d int) (string, bool) {
 	return "", false
 }
 
+// SubstValue: the argument value a parameter of the helper under examination
+// stands for (innermost substitution frame).
+func SubstValue(p *ssa.Parameter) (ssa.Value, bool) {
+	if n := len(substVals); n > 0 {
+		v, ok := substVals[n-1][p]
+		return v, ok
+	}
+	return nil, false
+}
+
 // SubstDepth is the number of active substitution frames.
 func SubstDepth() int { return len(substStack) }
 
@@ -203,6 +213,28 @@ func calleeName(c *ssa.CallCommon) string {
 	case *ssa.MakeClosure:
 		if fn, ok := f.Fn.(*ssa.Function); ok {
 			return FuncString(fn)
+		}
+	case *ssa.Parameter:
+		// a function-typed parameter of a helper examined on behalf of a call
+		// site is the function that site passed
+		if n := len(substVals); n > 0 {
+			if a, ok := substVals[n-1][f]; ok {
+				for {
+					if ct, ok := a.(*ssa.ChangeType); ok {
+						a = ct.X
+						continue
+					}
+					break
+				}
+				switch g := a.(type) {
+				case *ssa.Function:
+					return FuncString(g)
+				case *ssa.MakeClosure:
+					if fn, ok := g.Fn.(*ssa.Function); ok {
+						return FuncString(fn)
+					}
+				}
+			}
 		}
 	}
 	return "dyn:" + Of(c.Value)
@@ -303,6 +335,11 @@ func render(v ssa.Value, d int, onstack map[ssa.Value]bool) string {
 		// a byte array filled by binary.BigEndian.PutUintN(arr[:], v) is the
 		// big-endian encoding of v
 		if t, ok := bigEndianArray(x, r); ok {
+			return t
+		}
+		// a byte array filled only by io.ReadFull(R, arr[:]) is "the next N
+		// bytes of R"
+		if t, ok := readArray(x, r); ok {
 			return t
 		}
 		// A local whose address is taken: the values stored into it.
@@ -704,6 +741,27 @@ func inlineHelper(c *ssa.Call, idx int) (string, bool) {
 		// callers do not use the values
 		res := fn.Signature.Results()
 		n := res.Len()
+		if n >= 2 && idx == n-1 && res.At(n-1).Type().String() == "error" {
+			// the error result: when every failing return hands on the error of
+			// one and the same call, the helper's error is that call's error
+			var src *ssa.Extract
+			for _, r := range rets {
+				if k, ok := r.Results[n-1].(*ssa.Const); ok && k.Value == nil {
+					continue
+				}
+				ex, ok := r.Results[n-1].(*ssa.Extract)
+				if !ok || (src != nil && src != ex) {
+					return "", false
+				}
+				src = ex
+			}
+			if src == nil {
+				return "", false
+			}
+			PushSubst(fn, &c.Call)
+			defer PopSubst()
+			return Of(src), true
+		}
 		if n < 2 || idx == n-1 || res.At(n-1).Type().String() != "error" {
 			return "", false
 		}
@@ -731,6 +789,61 @@ func inlineHelper(c *ssa.Call, idx int) (string, bool) {
 	PushSubst(fn, &c.Call)
 	defer PopSubst()
 	return Of(ret.Results[idx]), true
+}
+
+// readArray: x is a local [N]byte array whose only writer is one
+// io.ReadFull(R, x[:]): renders "readN(R)".
+func readArray(x *ssa.Alloc, r func(ssa.Value) string) (string, bool) {
+	at, ok := deref(x.Type()).Underlying().(*types.Array)
+	if !ok || x.Referrers() == nil {
+		return "", false
+	}
+	if b, ok := at.Elem().Underlying().(*types.Basic); !ok || b.Kind() != types.Uint8 {
+		return "", false
+	}
+	if at.Len() != 2 && at.Len() != 4 && at.Len() != 8 {
+		return "", false
+	}
+	found := ""
+	for _, ref := range *x.Referrers() {
+		switch y := ref.(type) {
+		case *ssa.Slice:
+			if y.Referrers() == nil {
+				continue
+			}
+			for _, rr := range *y.Referrers() {
+				c, ok := rr.(*ssa.Call)
+				if !ok {
+					continue
+				}
+				name := calleeName(&c.Call)
+				switch {
+				case name == "io.ReadFull" && len(c.Call.Args) == 2 && c.Call.Args[1] == ssa.Value(y):
+					if found != "" {
+						return "", false
+					}
+					found = fmt.Sprintf("read%d(%s)", at.Len(), r(c.Call.Args[0]))
+				case strings.HasPrefix(name, "(binary.bigEndian).Uint"):
+				default:
+					return "", false
+				}
+			}
+		case *ssa.Store:
+			return "", false
+		case *ssa.IndexAddr:
+			if y.Referrers() != nil {
+				for _, rr := range *y.Referrers() {
+					if st, ok := rr.(*ssa.Store); ok && st.Addr == ssa.Value(y) {
+						return "", false
+					}
+				}
+			}
+		case *ssa.DebugRef:
+		default:
+			return "", false
+		}
+	}
+	return found, found != ""
 }
 
 // bigEndianArray: x is a [2|4|8]byte array whose only writer is
